@@ -854,5 +854,23 @@ def oracle(scn, S):
         S.rm_dir(d)
 
 
+def fixed_scenarios(S, tier, seed):
+    """Always-run: every ordered pair of operand formats with identical contents through xzdiff and xzcmp (the scripts choose the
+    decompressor per operand from three separate suffix lists: first operand compressed / second compressed / only second)."""
+    fmts = sorted(set(FORMATS))
+    for prog in ("xzdiff", "xzcmp"):
+        for f1 in fmts:
+            for f2 in fmts:
+                mk = lambda stem, fmt: {"stem": stem, "fmt": fmt, "state": "ok", "lines": ["Hello", "World!"], "eol": True, "cut": 0, "lzidx": 0}  # noqa: E731
+                scn = {"prog": prog, "files": [mk("a", f1), mk("b", f2)], "single": False, "dopts": [], "same": True, "dlabel": None, "dd": False}
+                S.evaluations += 1
+                S.count("fixed_format_pairs")
+                try:
+                    oracle(scn, S)
+                except base.Violation as v:
+                    v.scenario = scn
+                    raise
+
+
 if __name__ == "__main__":
-    base.main("c20", scenarios, oracle, budgets={"quick": 1600, "thorough": 16000})
+    base.main("c20", scenarios, oracle, budgets={"quick": 1600, "thorough": 16000}, extra_runs=fixed_scenarios)
